@@ -53,7 +53,32 @@ def run(ctx):
                 ctx.ob("C04.a", q, diff == Lin(8), f"len(packet) − size_field = {diff} (receiver frames with size + 8)", func=q, file=f.module.rel, node=node,
                        fail=f"len(packet) − size_field = {diff}, but the receiver frames packets with size + 8")
                 ctx.sample({"encoder": q.split(".")[-1], "packet_length": repr(total(lay)), "size_field": repr(L.int_lin(lay[1].term))})
-    # ---- data_received
+    check_reassembly(ctx, "C04", DR, MARKER, v3_size_ok, "int.from_bytes(view[2:4], 'big') + 8 (the encoders' framing constant)", 8)
+    ctx.require_min("encoders", 2)
+    ctx.require_min("loops", 1)
+    ctx.require_min("early_returns", 3)
+    ctx.require_min("back_edges", 1)
+    ctx.require_min("buffer_stores", 2)
+    ctx.require_min("puts", 1)
+
+
+def v3_size_ok(N, V):
+    """N = int.from_bytes(view[2:4], 'big') + 8"""
+    Nl = lin(N)
+    size_terms = [x for x in subterms(N) if call_is(x, "int.from_bytes")]
+    if len(size_terms) != 1:
+        return False, Nl
+    sz = size_terms[0]
+    fld = strip(sz[2][0])
+    order = sz[2][1] if len(sz[2]) > 1 else dict(sz[3]).get("byteorder")
+    ok = fld[0] == "slice" and strip(fld[1]) == V and fld[2] == ("const", 2) and fld[3] == ("const", 4) and order == ("const", "big") \
+        and Nl == Lin(8, {sz: 1})
+    return ok, Nl
+
+
+def check_reassembly(ctx, R, DR, MARKER, size_ok, size_desc, min_packet=8):
+    """The inductive-step premises of a length-framed data_received (shared by C04 for V3 and C01.e for V2)."""
+    prog = ctx.prog
     fn = ctx.fn(DR)
     file = fn.module.rel
     s = summarize(prog, fn)
@@ -70,11 +95,11 @@ def run(ctx):
                         and v != info["head"].env.get(k) and k.count(".") == 1:
                     ext_loop, buf_key = l, k
     puts = [n for n in ast.walk(fn.node) if isinstance(n, ast.Call) and isinstance(n.func, ast.Attribute) and n.func.attr == "put_nowait"]
-    ctx.ob("C04.d", DR, ext_loop is not None, "packet extraction happens inside a loop (several packets per segment are all delivered now)",
+    ctx.ob(R + ".d", DR, ext_loop is not None, "packet extraction happens inside a loop (several packets per segment are all delivered now)",
            func=DR, file=file, construct="extraction loop",
            fail="packets are not extracted in a loop: with several packets in one segment only the first is delivered when its last byte arrives")
     if ext_loop is None:
-        return
+        return False
     ctx.count("loops")
     info = s.loops[ext_loop]
     attr = buf_key.split(".", 1)[1]
@@ -84,7 +109,7 @@ def run(ctx):
     entry_v = info["entry"].env.get(buf_key)
     acc = entry_v is not None and strip(entry_v)[0] == "bin" and strip(entry_v)[1] == "+" and strip(strip(entry_v)[2]) == B0 \
         and strip(strip(entry_v)[3]) == ("param", data_p)
-    ctx.ob("C04.c", DR, acc, "incoming data is appended to the buffer (buffer' = buffer + data)", func=DR, file=file, construct=f"self.{attr} += data",
+    ctx.ob(R + ".c", DR, acc, "incoming data is appended to the buffer (buffer' = buffer + data)", func=DR, file=file, construct=f"self.{attr} += data",
            detail={"entry_value": show(entry_v) if entry_v else None},
            fail="incoming data is not appended to the retained buffer (bytes of a split packet are lost or reordered)")
     ctx.count("buffer_stores")
@@ -98,15 +123,15 @@ def run(ctx):
             empty_exit = True
         elif tt[0] == "cmp" and call_is(strip(tt[2]), "len") and strip(strip(tt[2])[2][0]) == Bh:
             empty_exit = (tt[1], tt[3]) in ((">", ("const", 0)), ("!=", ("const", 0)), (">=", ("const", 1)))
-        ctx.ob("C04.d", DR, empty_exit, "the loop only ends normally when the buffer is empty", func=DR, file=file, node=ext_loop.test,
+        ctx.ob(R + ".d", DR, empty_exit, "the loop only ends normally when the buffer is empty", func=DR, file=file, node=ext_loop.test,
                fail=f"the extraction loop can stop (`{show(tt)}` false) while complete packets remain buffered")
     else:
-        ctx.ob("C04.d", DR, False, "", func=DR, file=file, construct="extraction loop kind", fail="extraction loop is not a while loop over the buffer")
+        ctx.ob(R + ".d", DR, False, "", func=DR, file=file, construct="extraction loop kind", fail="extraction loop is not a while loop over the buffer")
     # early returns leave the buffer untouched
     for st, node in info["returns"]:
         ctx.count("early_returns")
         v = st.env.get(buf_key)
-        ctx.ob("C04.c", DR, v == Bh, "early return keeps the buffered bytes untouched", func=DR, file=file, node=node,
+        ctx.ob(R + ".c", DR, v == Bh, "early return keeps the buffered bytes untouched", func=DR, file=file, node=node,
                detail={"buffer_at_return": show(v) if v else None},
                fail="an early return modifies / clears the buffer: bytes of a partially received packet are lost")
     # back edges: exactly the extraction
@@ -117,7 +142,7 @@ def run(ctx):
         kb = kept if kept[0] == "slice" else None
         facts = atoms(st.pc)
         if kb is None or kb[3] is not None or kb[4] is not None or kb[2] is None:
-            ctx.ob("C04.c", DR, False, "", func=DR, file=file, construct=f"self.{attr} after extraction",
+            ctx.ob(R + ".c", DR, False, "", func=DR, file=file, construct=f"self.{attr} after extraction",
                    detail={"kept": show(kept)}, fail=f"after an extraction the buffer is `{show(kept)[:80]}`, not the remainder view[N:]")
             continue
         V, N = strip(kb[1]), kb[2]
@@ -126,7 +151,7 @@ def run(ctx):
         vb = V if V[0] == "slice" else None
         view_ok = vb is not None and strip(vb[1]) == Bh and vb[3] is None and vb[4] is None and vb[2] is not None \
             and meth_is(strip(vb[2]), "find") and strip(strip(vb[2])[1][1]) == Bh and strip(vb[2])[2] == (("const", MARKER),)
-        ctx.ob("C04.c", DR, view_ok, "view = buffer[buffer.find(8370):] (bytes before the marker are skipped, marker = encoders' constant)",
+        ctx.ob(R + ".c", DR, view_ok, "view = buffer[buffer.find(8370):] (bytes before the marker are skipped, marker = encoders' constant)",
                func=DR, file=file, construct="marker alignment", detail={"view": show(V)[:160]},
                fail=f"the packet view `{show(V)[:100]}` is not the buffer from the first 8370 marker on")
         # delivered slice: the put_nowait argument on this path
@@ -137,21 +162,12 @@ def run(ctx):
                 delivered = strip(t)
         dl = delivered if delivered is not None and delivered[0] == "slice" else None
         part = dl is not None and strip(dl[1]) == V and dl[2] is None and dl[3] == N and dl[4] is None
-        ctx.ob("C04.c", DR, part, "delivered = view[:N] and kept = view[N:] with the same N", func=DR, file=file, construct="partition",
+        ctx.ob(R + ".c", DR, part, "delivered = view[:N] and kept = view[N:] with the same N", func=DR, file=file, construct="partition",
                detail={"delivered": show(delivered)[:120] if delivered else None, "kept": show(kept)[:120]},
                fail=f"delivered `{show(delivered)[:80] if delivered else None}` and kept `{show(kept)[:80]}` do not partition the view at one point")
-        # N = int.from_bytes(view[2:4], 'big') + 8
-        Nl = lin(N)
-        size_terms = [x for x in subterms(N) if call_is(x, "int.from_bytes")]
-        n_ok = False
-        if len(size_terms) == 1:
-            sz = size_terms[0]
-            fld = strip(sz[2][0])
-            order = sz[2][1] if len(sz[2]) > 1 else dict(sz[3]).get("byteorder")
-            n_ok = fld[0] == "slice" and strip(fld[1]) == V and fld[2] == ("const", 2) and fld[3] == ("const", 4) and order == ("const", "big") \
-                and Nl == Lin(8, {sz: 1})
-        ctx.ob("C04.a", DR, n_ok, "N = int.from_bytes(view[2:4], 'big') + 8 (the encoders' framing constant)", func=DR, file=file, construct="total_size",
-               detail={"N": show(N)[:120]}, fail=f"packet size `{show(N)[:100]}` is not BE16(view[2:4]) + 8")
+        n_ok, Nl = size_ok(N, V)
+        ctx.ob(R + ".a", DR, n_ok, f"N = {size_desc}", func=DR, file=file, construct="total_size",
+               detail={"N": show(N)[:120]}, fail=f"packet size `{show(N)[:100]}` is not {size_desc}")
         # tight completeness guard
         tight = False
         header_consts = []
@@ -170,13 +186,13 @@ def run(ctx):
                     header_consts.append(b[1] + (1 if f[1] == ">" else 0))
                 elif f[1] in (">=", ">", "<", "<="):
                     loose.append(show(f))
-        ctx.ob("C04.b", DR, tight and not loose, "extraction happens exactly when len(view) >= N", func=DR, file=file, construct="completeness guard",
+        ctx.ob(R + ".b", DR, tight and not loose, "extraction happens exactly when len(view) >= N", func=DR, file=file, construct="completeness guard",
                detail={"facts": [show(f)[:100] for f in facts]},
                fail=("the completeness guard is not `len(view) >= N`: " + (f"found {loose}" if loose else "no such guard") +
                      " (a packet is delivered incomplete, or one byte late)"))
         for h in header_consts:
-            ctx.ob("C04.b", DR, h <= 8, f"header guard len(view) >= {h} never delays a complete packet (N >= 8)", func=DR, file=file,
-                   construct=f"header guard {h}", fail=f"header guard waits for {h} bytes: a complete {8}-byte packet is delayed")
+            ctx.ob(R + ".b", DR, h <= min_packet, f"header guard len(view) >= {h} never delays a complete packet (N >= {min_packet})", func=DR, file=file,
+                   construct=f"header guard {h}", fail=f"header guard waits for {h} bytes: a complete {min_packet}-byte packet is delayed")
         # exactly one put per iteration, not in a nested loop
         par = {}
         for n in ast.walk(ext_loop):
@@ -191,8 +207,8 @@ def run(ctx):
                     n = par[n]
                     if isinstance(n, (ast.For, ast.While)):
                         nested = True
-                ctx.ob("C04.d", DR, not nested, "put_nowait is not inside a nested loop", func=DR, file=file, node=p, fail="put_nowait in a nested loop: packets delivered more than once")
-        ctx.ob("C04.d", DR, nput == 1, "exactly one put_nowait per extracted packet", func=DR, file=file, construct="put_nowait sites",
+                ctx.ob(R + ".d", DR, not nested, "put_nowait is not inside a nested loop", func=DR, file=file, node=p, fail="put_nowait in a nested loop: packets delivered more than once")
+        ctx.ob(R + ".d", DR, nput == 1, "exactly one put_nowait per extracted packet", func=DR, file=file, construct="put_nowait sites",
                fail=f"{nput} put_nowait sites in the extraction loop: a packet is delivered {nput} times")
         ctx.count("puts", nput)
     # queue identity
@@ -204,18 +220,12 @@ def run(ctx):
             q_attrs.add(p.func.value.attr)
     get_attrs = {n.func.value.attr for n in ast.walk(rq.node) if isinstance(n, ast.Call) and isinstance(n.func, ast.Attribute)
                  and n.func.attr in ("get", "get_nowait") and isinstance(n.func.value, ast.Attribute)}
-    ctx.ob("C04.d", DR, bool(q_attrs) and q_attrs == get_attrs, f"read() pops the queue data_received fills (self.{'/'.join(sorted(q_attrs))})",
+    ctx.ob(R + ".d", DR, bool(q_attrs) and q_attrs == get_attrs, f"read() pops the queue data_received fills (self.{'/'.join(sorted(q_attrs))})",
            func=DR, file=file, construct="queue identity", fail=f"data_received fills {sorted(q_attrs)} but read pops {sorted(get_attrs)}")
-    ini = prog.lookup_method(prog.cls(V3), "__init__")
-    qinit = [n for k in prog.mro(prog.cls(V3)) for m in [k.methods.get("__init__")] if m for n in ast.walk(m.node)
+    qinit = [n for k in prog.mro(fn.cls) for m in [k.methods.get("__init__")] if m for n in ast.walk(m.node)
              if isinstance(n, ast.Assign) and any(isinstance(t, ast.Attribute) and t.attr in q_attrs for t in n.targets)]
     fifo = bool(qinit) and all(isinstance(n.value, ast.Call) and prog.resolve_expr(prog.module("msmart.lan"), n.value.func) is not None
                                and getattr(prog.resolve_expr(prog.module("msmart.lan"), n.value.func), "name", "") == "asyncio.Queue" for n in qinit)
-    ctx.ob("C04.d", V3, fifo, "the queue is a FIFO asyncio.Queue", func=V3, file=file, construct="self._queue = asyncio.Queue()",
+    ctx.ob(R + ".d", fn.cls.qual, fifo, "the queue is a FIFO asyncio.Queue", func=fn.cls.qual, file=file, construct="self._queue = asyncio.Queue()",
            fail="the receive queue is not a plain FIFO asyncio.Queue (LifoQueue / PriorityQueue reorder packets)")
-    ctx.require_min("encoders", 2)
-    ctx.require_min("loops", 1)
-    ctx.require_min("early_returns", 3)
-    ctx.require_min("back_edges", 1)
-    ctx.require_min("buffer_stores", 2)
-    ctx.require_min("puts", 1)
+    return True
